@@ -676,8 +676,8 @@ func treePols(maxLeaves, maxn int, cap int, pr interface{ IntN(int) int }) []apo
 	}
 	if cap > 0 && len(out) > cap {
 		// deterministic sample that keeps the first (smallest) trees
-		keep := out[:cap/4]
-		rest := out[cap/4:]
+		keep := append([]apol{}, out[:cap/4]...)
+		rest := append([]apol{}, out[cap/4:]...)
 		for len(keep) < cap {
 			i := pr.IntN(len(rest))
 			keep = append(keep, rest[i])
@@ -2032,8 +2032,8 @@ func main() {
 		case "cnf":
 			c := cnfPols(flagCnfN)
 			if flagCap > 0 && len(c) > flagCap {
-				keep := c[:flagCap/2]
-				rest := c[flagCap/2:]
+				keep := append([]apol{}, c[:flagCap/2]...)
+				rest := append([]apol{}, c[flagCap/2:]...)
 				for len(keep) < flagCap {
 					i := pr.IntN(len(rest))
 					keep = append(keep, rest[i])
